@@ -987,7 +987,7 @@ func (p *c19Plat) leanPlat() string {
 	return e[:strings.LastIndex(e, ";dt=")]
 }
 
-func yq(s string) string { return strconv.Quote(s) } // a Go-quoted string is a valid YAML double-quoted scalar for our alphabet
+func c19yq(s string) string { return strconv.Quote(s) } // a Go-quoted string is a valid YAML double-quoted scalar for our alphabet
 
 func (p *c19Plat) yaml() []byte {
 	var b strings.Builder
@@ -997,16 +997,16 @@ func (p *c19Plat) yaml() []byte {
 		b.WriteString("  privilege-levels:\n")
 		for _, e := range p.privs {
 			parts := strings.SplitN(string(e), "\x00", 2)
-			fmt.Fprintf(&b, "    %s:\n      name: %s\n      pattern: %s\n", parts[0], yq(parts[0]), yq(parts[1]))
+			fmt.Fprintf(&b, "    %s:\n      name: %s\n      pattern: %s\n", parts[0], c19yq(parts[0]), c19yq(parts[1]))
 		}
 	}
 	if p.ddp != "" {
-		fmt.Fprintf(&b, "  default-desired-privilege-level: %s\n", yq(p.ddp))
+		fmt.Fprintf(&b, "  default-desired-privilege-level: %s\n", c19yq(p.ddp))
 	}
 	if len(p.fwc) > 0 {
 		b.WriteString("  failed-when-contains:\n")
 		for _, s := range p.fwc {
-			fmt.Fprintf(&b, "    - %s\n", yq(s))
+			fmt.Fprintf(&b, "    - %s\n", c19yq(s))
 		}
 	}
 	onx := func(key string, on bool) {
@@ -1021,12 +1021,12 @@ func (p *c19Plat) yaml() []byte {
 	if len(p.opts) > 0 {
 		b.WriteString("  options:\n")
 		for _, o := range p.opts {
-			fmt.Fprintf(&b, "    - option: %s\n", yq(o.name))
+			fmt.Fprintf(&b, "    - option: %s\n", c19yq(o.name))
 			switch o.kind {
 			case 'i':
 				fmt.Fprintf(&b, "      value: %d\n", o.n)
 			case 's':
-				fmt.Fprintf(&b, "      value: %s\n", yq(o.s))
+				fmt.Fprintf(&b, "      value: %s\n", c19yq(o.s))
 			case 'f':
 				s := strconv.FormatFloat(float64(o.n)/8.0, 'f', -1, 64)
 				if !strings.Contains(s, ".") {
@@ -1039,7 +1039,7 @@ func (p *c19Plat) yaml() []byte {
 				} else {
 					b.WriteString("      value:\n")
 					for _, s := range o.l {
-						fmt.Fprintf(&b, "        - %s\n", yq(s))
+						fmt.Fprintf(&b, "        - %s\n", c19yq(s))
 					}
 				}
 			case 'b':
@@ -1109,7 +1109,7 @@ type c19Out struct {
 	pmsg     string
 }
 
-func errClass(err error) string {
+func c19errClass(err error) string {
 	switch {
 	case err == nil:
 		return ""
@@ -1143,13 +1143,13 @@ func runImpl(ctor string, plat *c19Plat, user []c19Opt) (out c19Out) {
 	case plat != nil:
 		p, err := platform.NewPlatform(plat.yaml(), c19Host, opts...)
 		if err != nil {
-			out.err = errClass(err)
+			out.err = c19errClass(err)
 			return out
 		}
 		if ctor == "network" {
 			d, err := p.GetNetworkDriver()
 			if err != nil {
-				out.err = errClass(err)
+				out.err = c19errClass(err)
 				return out
 			}
 			renderStruct("network.Driver", reflect.ValueOf(d).Elem(), out.fields)
@@ -1158,7 +1158,7 @@ func runImpl(ctor string, plat *c19Plat, user []c19Opt) (out c19Out) {
 		} else {
 			d, err := p.GetGenericDriver()
 			if err != nil {
-				out.err = errClass(err)
+				out.err = c19errClass(err)
 				return out
 			}
 			renderGeneric(d, out.fields)
@@ -1166,14 +1166,14 @@ func runImpl(ctor string, plat *c19Plat, user []c19Opt) (out c19Out) {
 	case ctor == "generic":
 		d, err := generic.NewDriver(c19Host, opts...)
 		if err != nil {
-			out.err = errClass(err)
+			out.err = c19errClass(err)
 			return out
 		}
 		renderGeneric(d, out.fields)
 	case ctor == "network":
 		d, err := network.NewDriver(c19Host, opts...)
 		if err != nil {
-			out.err = errClass(err)
+			out.err = c19errClass(err)
 			return out
 		}
 		renderStruct("network.Driver", reflect.ValueOf(d).Elem(), out.fields)
@@ -1182,7 +1182,7 @@ func runImpl(ctor string, plat *c19Plat, user []c19Opt) (out c19Out) {
 	case ctor == "netconf":
 		d, err := netconf.NewDriver(c19Host, opts...)
 		if err != nil {
-			out.err = errClass(err)
+			out.err = c19errClass(err)
 			return out
 		}
 		renderStruct("netconf.Driver", reflect.ValueOf(d).Elem(), out.fields)
@@ -1193,7 +1193,7 @@ func runImpl(ctor string, plat *c19Plat, user []c19Opt) (out c19Out) {
 	case ctor == "logging":
 		i, err := logging.NewInstance(opts...)
 		if err != nil {
-			out.err = errClass(err)
+			out.err = c19errClass(err)
 			return out
 		}
 		renderStruct("logging.Instance", reflect.ValueOf(i).Elem(), out.fields)
